@@ -21,7 +21,7 @@ func init() {
 	prop("C06", []string{"R6", "R42", "R40", "R13", "R8", "R1a", "R43"},
 		"source and destination use the same physical row, result slices are sized by the column's physical length (R42), user functions run once per row of the frame in frame order (R40), every access goes through the index (R6); the destination replaces an existing column in its position or is appended last for frames however derived (R13); nothing else changes (R1a); FilteredApply restores the original index on the result (R43).",
 		"which built-in a name resolves to; result typing by function signature; zero/null fill of unmatched rows (follows from make's zero values plus R42's sizing; argued, not checked).")
-	prop("C07", []string{"R14", "R15", "R21", "R31", "R1a"},
+	prop("C07", []string{"R14", "R15", "R21", "R31", "R1a", "R47"},
 		"no temporary survives and no original column is dropped (R14); operands are applied in the order written in the binary forms, across the constructor/execute pairs (R15); function lookups are comma-ok and failures surface through Err (R21, R31); evaluation does not write the original frame or the evaluation context (R1a).",
 		"the left fold of n-ary Expr (recursive slice surgery); decoding priority in newExpr; that the function found is the right one.")
 	prop("C08", []string{"R16", "R17", "R18", "R13", "R19", "R25", "R1n", "R39"},
@@ -33,7 +33,7 @@ func init() {
 	prop("C10", []string{"R20", "R21", "R22", "R23", "R17", "R18", "R31", "R41", "R39"},
 		"stickiness without callbacks, Len() = -1 on error, writers refuse errored frames (R20); dynamic union types are decoded without a panicking construct: table lookups are comma-ok before the call (R21), non-comma-ok type assertions and explicit panics equal the frozen documented lists (R22, R23); illegal names and bad slice bounds are rejected (R17, R18); errors from column kernels reach Err (R31); results of failing calls are not used before the error test (R41); names are validated before any early success return (R39).",
 		"absence of implicit panics in general (index out of range, nil dereference) beyond the specific ones above; nil FilterClause/Expression arguments and zero-value clause structs.")
-	prop("C11", []string{"R1", "R2"},
+	prop("C11", []string{"R1", "R2", "R47"},
 		"race freedom for every schedule by a frame-rule argument: locations reachable by two operations are prestate of both or global; no public operation writes prestate (R1) or package-level state, the library starts no goroutine, uses no sync primitive and holds no private random generator (R2); every other write targets objects allocated inside the operation.",
 		"nothing is excluded, but the argument is only as good as its assumptions; no happens-before detector is used (different technique).",
 		"math/rand top-level functions and *regexp.Regexp are goroutine safe (documented)")
@@ -56,10 +56,10 @@ func init() {
 	prop("C17", []string{"R33", "R34", "R19", "R4", "R10", "R5", "R46"},
 		"the 8-bit encoding cannot overflow into null or wrap (R33, R34, R19); undeclared values are rejected on every construction path (R34: minting is dominated by !strict and the cardinality guard); ordering comparisons and Sort use rank = declared position (R4, R10); filtering a strict column against an undeclared constant is an error (R46); null stays distinct (R5 polarity, R10).",
 		"in/like bitset contents beyond R19's layout and R35.")
-	prop("C18", []string{"R35", "R33", "R3"},
+	prop("C18", []string{"R35", "R33", "R3", "R42"},
 		"matcher selection and anchoring for all 16 pattern classes, both column types agreeing (R35); the custom upper-casing never stores a non-ASCII rune as a single byte (R33); nulls never reach the matcher (R35 dominance; enum matching ranges over values).",
 		"agreement of the rest of the ToUpper copy with strings.ToUpper (buffer growth, length-changing code points); regular-expression assembly.")
-	prop("C19", []string{"R6", "R36", "R25", "R29", "R31", "R41"},
+	prop("C19", []string{"R6", "R36", "R25", "R29", "R31", "R41", "R48"},
 		"necessary conditions only: rows and arguments are taken through the index in frame order (R6); all five column types have an argument builder (R36); all dialect/config fields are consulted (R25); driver errors surface and a failing result set is not taken for a complete one (R29, R31, R41).",
 		"statement text per dialect; typed scanning and NULL back-fill; write/read agreement through a real store.")
 }
